@@ -39,7 +39,7 @@ func kindMode(kind int) fs.FileMode {
 	return fs.FileMode(uint32(m))
 }
 
-// newWorld builds the tree  ./{a.pkg, d/{b.pkg, e/{c.pkg}}, z.pkg}  with nExt extractors.
+// newWorld builds the tree  ./{a.pkg, d/{b.pkg, e/{c.pkg, g/{h.pkg}}}, z.pkg}  with nExt extractors.
 func newWorld(nExt int) *world { return newWorldGI(nExt, nil) }
 
 // newWorldGI additionally places .gitignore files: gi maps a directory ("." or "d") to the file's content.
@@ -57,8 +57,13 @@ func newWorldGI(nExt int, gi map[string]string) *world {
 	a := mk("a.pkg", "a.pkg")
 	b := mk("d/b.pkg", "b.pkg")
 	c := mk("d/e/c.pkg", "c.pkg")
+	h := mk("d/e/g/h.pkg", "h.pkg")
 	z := mk("z.pkg", "z.pkg")
-	dNode := symfs.Dir("d", b, symfs.Dir("e", c))
+	eNode := symfs.Dir("e", c, symfs.Dir("g", h))
+	if g, ok := gi["d/e"]; ok {
+		eNode.Children = append(eNode.Children, symfs.File(".gitignore", g))
+	}
+	dNode := symfs.Dir("d", b, eNode)
 	root := symfs.Dir(".", a, dNode, z)
 	if g, ok := gi["."]; ok {
 		root.Children = append([]*symfs.Node{symfs.File(".gitignore", g)}, root.Children...)
@@ -67,7 +72,7 @@ func newWorldGI(nExt int, gi map[string]string) *world {
 		dNode.Children = append(dNode.Children, symfs.File(".gitignore", g))
 	}
 	w.fsys = &symfs.FS{Root: root}
-	w.dirs = []string{"d", "d/e"}
+	w.dirs = []string{"d", "d/e", "d/e/g"}
 	for i := 0; i < nExt; i++ {
 		i := i
 		name := string(rune('x' + i))
@@ -202,6 +207,11 @@ func (w *world) gitignored(o options, leafPath string) bool {
 		}
 	}
 	return false
+}
+
+// gitignoredDir: is the directory itself (or one of its ancestors) ignored in a whole-tree scan?
+func (w *world) gitignoredDir(o options, dir string) bool {
+	return w.gitignored(o, dir+"/x")
 }
 
 func splitPath(p string) []string {
@@ -394,18 +404,22 @@ func VerifGitignore() {
 	w.check(o, inv, err)
 }
 
-var pathChoices = [][]string{nil, {"d"}, {"d/e"}, {"a.pkg"}, {"d", "a.pkg"}, {"d/b.pkg"}, {"d/e", "d"}, {"."}}
+var pathChoices = [][]string{nil, {"d"}, {"d/e"}, {"a.pkg"}, {"d", "a.pkg"}, {"d/b.pkg"}, {"d/e", "d"}, {"."}, {"d/e/g"}}
 
 // VerifRequested: explicitly requested files and directories, sub-directory cut-off, and
 // agreement of a requested sub-directory with the whole-tree scan restricted to it.
 func VerifRequested() {
 	pc := verifrt.Choice("paths", len(pathChoices))
 	d := verifrt.Choice("dGitignore", 3)
+	de := verifrt.Choice("deGitignore", 3)
 	gi := map[string]string{}
 	if d > 0 {
 		gi["d"] = []string{"", "c.pkg", "e/"}[d]
 	}
-	o := options{paths: pathChoices[pc], useGitignore: d > 0}
+	if de > 0 {
+		gi["d/e"] = []string{"", "h.pkg", "c.pkg"}[de]
+	}
+	o := options{paths: pathChoices[pc], useGitignore: d > 0 || de > 0}
 	if len(o.paths) > 0 {
 		o.ignoreSub = verifrt.Choice("ignoreSubDirs", 2) == 1
 	}
@@ -420,19 +434,65 @@ func VerifRequested() {
 	}
 	w.check(o, inv, err)
 	// whole-tree scan restricted to the requested sub-directory
-	if len(o.paths) == 1 && o.paths[0] == "d" && !o.ignoreSub {
+	if len(o.paths) == 1 && (o.paths[0] == "d" || o.paths[0] == "d/e" || o.paths[0] == "d/e/g") && !o.ignoreSub {
 		w2 := newWorldGI(1, gi)
 		for i, l := range w2.leaves {
 			l.req[0] = w.leaves[i].req[0]
 		}
 		w2.apply()
 		w2.run(options{useGitignore: o.useGitignore})
+		sub := o.paths[0] + "/"
+		reachable := !w2.gitignoredDir(options{useGitignore: o.useGitignore}, o.paths[0])
 		for _, l := range w2.leaves {
-			if len(l.path) > 2 && l.path[:2] == "d/" {
+			if reachable && len(l.path) > len(sub) && l.path[:len(sub)] == sub {
 				verifrt.Assert(w.exs[0].Extracts[l.path] == w2.exs[0].Extracts[l.path], "requested sub-directory scan equals the whole-tree scan restricted to it")
 			}
 		}
 		verifrt.Reach("compared-with-whole-tree")
+	}
+}
+
+// VerifRootsSameName: several scan roots that hold a file at the same relative path; each root's
+// file is judged by its own size and kind (per scan root, exactly once).
+func VerifRootsSameName() {
+	nroots := 2
+	maxSize := verifrt.IntRange("maxFileSize", 0, 1<<40)
+	var roots []*scalibrfs.ScanRoot
+	var sizes []int64
+	var kinds []int
+	for i := 0; i < nroots; i++ {
+		sz := int64(verifrt.IntRange("size", 0, 1<<40))
+		kind := verifrt.IntRange("kind", 0, 2)
+		n := &symfs.Node{Name: "same.pkg", Mode: kindMode(kind), Size: sz, Data: []byte("x")}
+		roots = append(roots, &scalibrfs.ScanRoot{FS: &symfs.FS{Root: symfs.Dir(".", n)}})
+		sizes = append(sizes, sz)
+		kinds = append(kinds, kind)
+	}
+	// the extractor looks at the file's own metadata, as several built-in extractors do
+	calls := 0
+	extractedSizes := []int64{}
+	ex := fake.NewExtractor("x", nil)
+	ex.Required = func(string) bool { return true }
+	ex.OnExtract = func(_ context.Context, in *filesystem.ScanInput) (inventory.Inventory, error) {
+		calls++
+		extractedSizes = append(extractedSizes, in.Info.Size())
+		return inventory.Inventory{}, nil
+	}
+	_, _, err := filesystem.Run(context.Background(), &filesystem.Config{
+		Extractors:  []filesystem.Extractor{ex},
+		ScanRoots:   roots,
+		Stats:       stats.NoopCollector{},
+		MaxFileSize: maxSize,
+	})
+	verifrt.Assert(err == nil, "scan of fault-free roots returns no error")
+	want := 0
+	for i := 0; i < nroots; i++ {
+		ok := verifrt.And(kinds[i] == 0, verifrt.Not(verifrt.And(maxSize > 0, sizes[i] > int64(maxSize))))
+		want += verifrt.B2I(ok)
+	}
+	verifrt.Assert(calls == want, "per scan root, the file is extracted exactly once iff it is a regular file within the size limit of that root's own file")
+	if calls > 0 {
+		verifrt.Reach("some-extraction")
 	}
 }
 
